@@ -42,6 +42,79 @@ GLOBAL_RULES = [
 ]
 
 
+# names of functions the unit being assembled defines itself (extracted or hand-written); set by assemble()
+_UNIT_KNOWN = None
+
+
+def _split_args(masked, text):
+    """split `text` (an argument list without the outer parentheses) at its top-level commas"""
+    out, depth, last = [], 0, 0
+    for j, ch in enumerate(masked):
+        if ch in '([{':
+            depth += 1
+        elif ch in ')]}':
+            depth -= 1
+        elif ch == ',' and depth == 0:
+            out.append(text[last:j])
+            last = j + 1
+    if text[last:].strip():
+        out.append(text[last:])
+    return [a.strip() for a in out]
+
+
+def inline_helpers(text, src, known, own, rules, applied):
+    """R45: a call of a free helper function of the same source file that has no contract in the unit is
+    replaced by a block expression binding the helper's parameters to the arguments, followed by the
+    helper's body (`({ let p: T = arg; ..; BODY })`), and the unit's rewrite rules are applied to that
+    body too.  Modular verification knows nothing about an uncontracted callee, so the alternative would
+    be to reject the caller (undecided) whenever a refactoring moves a few lines into a new private
+    function.  Refused (the call is left as it is, and Verus then rejects the unit: undecided) when the
+    helper is generic, takes `self` or a pattern, is recursive, or its body contains `return`, `?` or a loop
+    (a loop has no invariant to offer: the caller could fail for lack of a proof, not for a defect)."""
+    from rsx import match_brace, mask as _mask
+    cands = set(re.findall(r'(?m)^(?:pub(?:\s*\([^)]*\))?\s+)?fn\s+([A-Za-z_]\w*)\s*\(', src.masked))
+    cands -= set(known) | {own}
+    if not cands:
+        return text
+    for _round in range(16):
+        m = _mask(text)
+        hit = None
+        for mm in re.finditer(r'(?<![\w.:])([a-z_]\w*)\(', m):
+            if mm.group(1) in cands and not re.search(r'\bfn\s+$', m[:mm.start()]):
+                hit = mm
+                break
+        if hit is None:
+            return text
+        name = hit.group(1)
+        op = hit.end() - 1
+        cp = match_brace(m, op, '(', ')')
+        args = _split_args(m[op + 1:cp], text[op + 1:cp])
+        try:
+            h = src.find_fn(name)
+        except LostAnchor:
+            return text
+        sig = src.masked[h['fn_kw']:h['open']]
+        sm = re.match(r'fn\s+\w+\s*\((.*)\)\s*(?:->\s*[^{]+)?$', sig.strip(), re.S)
+        if not sm or '<' in sig.split('(')[0] or re.search(r'\bself\b|\bimpl\b', sig):
+            return text
+        params = _split_args(sm.group(1), sm.group(1))
+        pp = [re.match(r'(?:mut\s+)?([a-z_]\w*)\s*:\s*(.+)$', q, re.S) for q in params]
+        body_m = src.masked[h['open'] + 1:h['close']]
+        if (not all(pp) or len(pp) != len(args) or re.search(r'\breturn\b|\?|\b(?:for|while|loop)\b', body_m)
+                or re.search(r'\b%s\s*\(' % re.escape(name), body_m)):
+            return text
+        body = src.text[h['open'] + 1:h['close']]
+        for rname, rx, rep in GLOBAL_RULES:
+            body = rx.sub(rep, body)
+        for sub in rules:
+            pat, rep = sub[0], sub[1]
+            body = body.replace(pat, rep) if isinstance(pat, str) else pat.sub(rep, body)
+        lets = ' '.join('let %s: %s = %s;' % (q.group(1), norm_ws(q.group(2)), a) for q, a in zip(pp, args))
+        text = text[:hit.start(1)] + '({ ' + lets + body.rstrip() + ' })' + text[cp + 1:]
+        applied.append(('R45-inline the uncontracted helper `%s` (%d lines) at its call site' % (name, body.count('\n') + 1), 1))
+    return text
+
+
 class Raw:
     def __init__(self, text, label='raw'):
         self.text = text
@@ -86,6 +159,24 @@ class _Extract:
 
     def locate(self, src):
         raise NotImplementedError
+
+    def _r8_continue(self, item, k, lp, ob, cb, iname, cuts):
+        """R8 and `continue`: in the index loop a `continue` has to advance the index first, so each
+        `continue;` of the loop body becomes `{ I += 1; continue; }`.  Refused when the body has a loop of
+        its own (the `continue` might belong to it)."""
+        body = item.src.masked[ob:cb]
+        if not re.search(r'\bcontinue\b', body):
+            return
+        if any(ob < kw2 < cb for (kw2, _ob2) in lp):
+            raise LostAnchor('%s: loop #%d contains `continue` and a nested loop; R8 desugaring refused' % (item.name, k))
+        n = 0
+        for mc in re.finditer(r'\bcontinue\s*;', body):
+            a = ob + mc.start() - item.start
+            cuts.append((a, a + len(mc.group(0)), '{ %s += 1; continue; }' % iname))
+            n += 1
+        if n != len(re.findall(r'\bcontinue\b', body)):
+            raise LostAnchor('%s: loop #%d has a `continue` that is not a statement; R8 desugaring refused' % (item.name, k))
+        self.applied.append(('R8-continue: `continue;` -> `{ %s += 1; continue; }` in the index loop' % iname, n))
 
     def render(self, root):
         src = source(root, self.file)
@@ -153,8 +244,7 @@ class _Extract:
                     got = norm_ws(item.src.text[kw:ob]).split(' in ', 1)[1].strip() if mh else None
                     if not mh or got != norm_ws(want_expr):
                         raise LostAnchor('%s: loop #%d does not iterate `%s`: `%s`' % (item.name, k, want_expr, head.strip()))
-                    if re.search(r'\bcontinue\b', item.src.masked[ob:cb]):
-                        raise LostAnchor('%s: loop #%d contains `continue`; R8 desugaring refused' % (item.name, k))
+                    self._r8_continue(item, k, lp, ob, cb, iname, cuts)
                     x = mh.group(1)
                     cuts.append((kw - item.start, ob + 1 - item.start,
                                  '%s\n        let mut %s: usize = 0;\n        while %s < %s.len()\n%s\n        {\n            let %s = %s;'
@@ -163,10 +253,14 @@ class _Extract:
                 else:
                     mh = re.match(r'for\s+([A-Za-z_][A-Za-z0-9_]*)\s+in\s+&(mut\s+)?([A-Za-z_][A-Za-z0-9_.]*)\s*$', head)
                     if not mh:
-                        raise LostAnchor('%s: loop #%d is not of the form `for X in &[mut] V`: `%s`' % (item.name, k, head.strip()))
-                    if re.search(r'\bcontinue\b', item.src.masked[ob:cb]):
-                        raise LostAnchor('%s: loop #%d contains `continue`; R8 desugaring refused' % (item.name, k))
-                    x, mut, v = mh.group(1), ('mut ' if mh.group(2) else ''), mh.group(3)
+                        # `for X in V.iter()` visits the same elements as `for X in &V`
+                        mi = re.match(r'for\s+([A-Za-z_][A-Za-z0-9_]*)\s+in\s+([A-Za-z_][A-Za-z0-9_.]*)\.iter\(\)\s*$', head)
+                        if not mi:
+                            raise LostAnchor('%s: loop #%d is not of the form `for X in &[mut] V` / `for X in V.iter()`: `%s`' % (item.name, k, head.strip()))
+                        x, mut, v = mi.group(1), '', mi.group(2)
+                    else:
+                        x, mut, v = mh.group(1), ('mut ' if mh.group(2) else ''), mh.group(3)
+                    self._r8_continue(item, k, lp, ob, cb, iname, cuts)
                     cuts.append((kw - item.start, ob + 1 - item.start,
                                  'let mut %s: usize = 0;\n        while %s < %s.len()\n%s\n        {\n            let %s = &%s%s[%s];'
                                  % (iname, iname, v, clauses.strip('\n'), x, mut, v, iname)))
@@ -216,6 +310,9 @@ class _Extract:
                 raise LostAnchor('%s: substitution `%s` matched %d times, declared %d'
                                  % (item.name, shown, n, cnt))
             self.applied.append(('%s: `%s` -> `%s`' % (rule, shown, rep), n))
+        if _UNIT_KNOWN is not None and isinstance(self, (Fn, Block)):
+            own = item.name.split('::')[-1]
+            text = inline_helpers(text, src, _UNIT_KNOWN, own, self.subs, self.applied)
         if self.prologue is not None:
             if not re.search(r'/\*@SPEC@\*/\{', text):
                 raise LostAnchor('%s: no body start to attach the prologue to' % item.name)
@@ -376,10 +473,24 @@ def _auto_consts(root, parts_rendered):
 
 
 def assemble(unit, root):
-    rendered = []
+    global _UNIT_KNOWN
+    known = set()
     for part in unit.PARTS:
-        text, item = part.render(root)
-        rendered.append((text, part, item))
+        if isinstance(part, Fn):
+            known.add(part.name)
+        elif isinstance(part, Raw):
+            try:
+                known |= set(re.findall(r'\bfn\s+([A-Za-z_]\w*)', part.render(root)[0]))
+            except (LostAnchor, OSError):
+                pass
+    _UNIT_KNOWN = known
+    rendered = []
+    try:
+        for part in unit.PARTS:
+            text, item = part.render(root)
+            rendered.append((text, part, item))
+    finally:
+        _UNIT_KNOWN = None
     extra = _auto_consts(root, rendered)
     # a const may only be placed between items: in front of the first extract of the unit's verus! block
     chunks = []
